@@ -54,6 +54,55 @@ CHECKS = {
          "Binary64 cancellation in the closed form is outside the R-level theorems: it is the known finding."),
    technique='Coq theorems over R (EVT/MVT, field/nra) + translator agreement + bigfloat correspondence',
    ref='DESIGN.md §3 C08'),
+ 'C02': dict(
+   text=("Character-level model of _tokenize_path (backtracking regex engine with Python re.findall semantics for FLOAT_RE), faithful model "
+         "impl_parse of _parse_path's token-stack machine (flags for the two repairable behaviours), and an independent reference "
+         "interpreter spec_run written from SVG 1.1 8.3 (coq/Model/Parse.v, Lexer.v). Theorems: for EVERY grammatical command program of "
+         "any length, impl_parse (flatten prog) = Ok (spec_run prog) — full for the repaired variant, and for the pinned code under two "
+         "boolean side conditions (no S/T directly after Z, no arc ending on the current point) whose failures are _refuted by vm_compute "
+         "witnesses; corollaries for every clause of the statement; FLOAT_RE with backtracking = a deterministic scanner; lex (render toks) = "
+         "toks for every token list and every admissible separator policy (spellings), adjacent flags and '1.e1' refuted. Tie: 19k strings "
+         "per quick run (exhaustive M + <=3 letters, random programs 5-40 commands, spellings, malformed) compared inside Coq against the "
+         "tokenizer model, all impl_parse variants and spec_run."),
+   note=("Trusted: kernel+vm_compute, harness (integer-stream encoding of cases). float() of non-dyadic numerals, warn() side effects and "
+         "Arc radius rescaling (C04) are outside; no translator tie (state machine)."),
+   technique='Coq refinement proof (induction over command programs) + regex-engine model + exhaustive/random differential correspondence in Coq',
+   ref='DESIGN.md §3 C02'),
+ 'C06': dict(
+   text=("Arc length specified as RInt of the speed (Coquelicot). Theorems over R: Line.length = arc length; non-negativity, additivity "
+         "(Chasles); every chord sum <= arc length <= control-polygon sum for every de Casteljau subdivision depth (the rigorous bracket "
+         "of the statement, for quadratics and cubics) and a Cauchy-Schwarz upper bound for arcs; segment_length's recursive chord rule "
+         "returns a value between the chord and the arc length for every fuel/error/min_depth; the quadratic closed form equals the arc "
+         "length whenever a x b != 0 (fundamental theorem, full), the three fallback formulas for collinear control points, the |a|<1e-12 "
+         "branch within |a|(t1^2-t0^2); path length = sum. Tie: the implementation's length must lie inside the theorem-backed bracket "
+         "evaluated inside Coq in 120-bit bigfloats, both scipy configurations, plus kernel `integral` certificates and model ties for the "
+         "closed form and segment_length."),
+   note=("Trusted: kernel, py2v.py (Line.length only), harness, BigF evaluation; QUADPACK and libm are oracles judged per case. Binary64 "
+         "cancellation in the near-collinear closed form is the known finding, not covered by the R-level theorem."),
+   technique='Coq/Coquelicot theorems (RInt, FTC, Cauchy-Schwarz) + bracket oracle evaluated in Coq + integral certificates',
+   ref='DESIGN.md §3 C06'),
+ 'C07': dict(
+   text=("Model of inv_arclength (range check, early returns, Line branch, Path segment search + t2T, bisection with its three exits) over "
+         "an abstract len. Theorems over R: bisection invariant, result within s_tol and in [0,1], termination under a Lipschitz bound, "
+         "ends, ValueError outside [0,L], monotonicity up to resolution, path result = t2T of the segment result. Binary64: structural "
+         "theorem (any carrier, any len) that once the midpoint equals the re-assigned bound the loop is a fixed point and ends in MaxIts "
+         "for every fuel — the stall exit can never fire — with PrimFloat witnesses; repaired exit test proved to return. Tie: every "
+         "ilength call is replayed bit-exactly in PrimFloat inside Coq on the recorded length(0,t) values (same t, same exit)."),
+   note=("Trusted: kernel, PrimFloat = CPython float arithmetic, harness. len is the implementation's own length (C06). A Flocq-level "
+         "iteration bound for the repaired loop is not proved (C07_returns_partial under an explicit measure)."),
+   technique='Coq theorems over R + structural float stall theorem + bit-exact PrimFloat loop replay',
+   ref='DESIGN.md §3 C07'),
+ 'C09': dict(
+   text=("ALL DEGREES: reversed, split and crop_bezier (three branches, oracle relocation parameter as input) trace p(1-t), p(ut), "
+         "p(t+u(1-t)), p(t0+u(t1-t0)) (generic field, from the de Casteljau theorems); Line cropped/split; arcs over R: re-parameterisation "
+         "uniqueness lemma for _parameterize and cropped/reversed/split under the single hypothesis that the isclose snap is inactive; paths "
+         "(any carrier, any length, abstract segment contracts): reversed order/length, cropped ends/joined/length incl. wrap-around under "
+         "explicit index hypotheses, with vm_compute refutations for duplicate segments and the isclose hand-over cases. Tie: agreement "
+         "lemmas for the translatable parts + exact-rational (Bezier) / bigfloat (arc) correspondence, path_cropped structure compared exactly; "
+         "statement evaluated on the implementation."),
+   note=("Trusted: kernel, harness, BigF evaluation. radialrange relocation is an oracle (C13); T2t/isclosed are inputs (C05)."),
+   technique='Coq theorems (list induction, ring/field, reals) + correspondence in exact rationals / bigfloats',
+   ref='DESIGN.md §3 C09'),
  'C13': dict(
    text=("As-coded models of Line.radialrange, bezier_radialrange (candidates 0,1 + roots01 of d/dt|B-z|^2, first-extremal min/max), "
          "Path.radialrange with indices (coq/Model/Extrema.v). Theorems over R: Line: returned (d,t) are attained and GLOBAL on [0,1] (full); "
